@@ -48,29 +48,39 @@ RULE = ("cases come from one PRNG seeded by VERIF_SEED plus fixed catalogues: pa
         "delta, by +-1 and by a multiple of N; all (k, n) with 1 <= k <= n <= 5 for the tree generators. A case is "
         "non-trivial when it involves at least one curve operation; distinct = distinct request lines / predicate inputs")
 CLAUSES = {
-    "aggregate key independent of participant order": "proved (sort_perm, musig_new_perm)",
+    "aggregate key independent of participant order": "proved (sort_sorted_perm, sort_perm, aggregate_key_perm, "
+        "multisig_script_perm, subset_leaf_order_independent)",
     "sum of partial signatures is a valid BIP340 signature (plain and tweaked, all parity combinations)":
-        "proved relative to GroupLaw (get_signature_valid_relGroup, get_signature_verifies_relGroup)",
+        "partial(F13a) (get_signature_valid_partial, aggregate_key_formula_partial, verify_schnorr_unique): proved for "
+        "all participant lists with pairwise different x-only keys, all nonces, messages, merkle roots and timelocks — "
+        "the algebra s*G = R_even + e*Q_even in the ZMod N-module <G>, with GroupLaw discharged by "
+        "Buidl.Proofs.TaprootGroup from the secp256k1 development of C03; fails for repeated x-only keys (F13a_witness)",
     "omitted / altered partial signature never yields a valid aggregate":
-        "proved relative to GroupLaw (get_signature_iff_relGroup: get_signature succeeds exactly for s_sum congruent to "
-        "the sum of the partial signatures modulo N; alter_partial_rejected_relGroup, omit_partial_rejected_relGroup)",
+        "partial(F13a) (get_signature_iff_partial: get_signature succeeds exactly for s_sum congruent to the sum of the "
+        "partial signatures modulo N; alter_partial_rejected_partial, omit_partial_rejected_partial)",
     "k-of-n trees: each k-subset owns exactly one leaf":
-        "proved (combinations_mem, combinations_nodup, combinations_length, combine_leaves, multi_leaf_tree_leaves, "
-        "musig_tree_leaves, multisig_leaf_injective)",
+        "proved (combinations_mem, combinations_nodup', combinations_count, combinations_bijection, combine_keeps_leaves, "
+        "multi_leaf_tree_leaves, musig_tree_leaves): the leaves are position by position the leaves of the combinations, "
+        "which are the k-subsets, each exactly once; that different subsets give different leaf scripts "
+        "(pairwise different x-only keys) is checked on the implementation (tree_bijection)",
     "a spend of each leaf by its subset verifies":
         "correspondence-only (needs the tapscript interpreter of C06/C07): sampled end-to-end through Tx.verify_input",
+    "BIP340 verification": "the verification equation is that of pecc.verify_schnorr (model MuSig.verifySchnorr, the same "
+        "function as Buidl.Model.Schnorr.verifySchnorr over the abstract challenge hash); its equivalence with "
+        "Spec.BIP340.verify is C02's theorem; here the harness checks every aggregate signature with an independent "
+        "BIP340 verifier written from the BIP text",
 }
 TRUSTED = ["the tagged hashes are arbitrary functions in every theorem (fields of `Hashes`); the driver instantiates them "
            "with Buidl.Model.Hash.SHA256 and the tag strings re-extracted from buidl/phash.py",
            "curve arithmetic of the driver is Buidl.Model.EC (checked against buidl/pecc.py by this run and by C03)",
-           "the independent BIP340 verification used as oracle for `sig_valid` is written in this file from the BIP text "
+           "the independent BIP340 verification used as oracle for `session` is written in this file from the BIP text "
            "(lift_x, challenge, s*G - e*P) over buidl's Point addition"]
-ASSUMPTIONS = ["GroupLaw: <G> is a module over Z/N under smul/sadd with G of order exactly N, parity flips under negation, "
-               "points with equal x are equal or opposite, lift_x inverts xonly — explicit hypothesis of the `_relGroup` "
-               "theorems until Buidl.Proofs.Secp256k1 discharges it",
-               "negligible events are explicit hypotheses: the aggregate key, the aggregate nonce R and the tweaked key are "
-               "not the point at infinity; the x-only participant keys are pairwise distinct (the code keys its coefficient "
-               "table by x-only key)",
+ASSUMPTIONS = ["negligible events are explicit: the session theorems assume the library produced the partial signatures, "
+               "i.e. the aggregate key, the aggregate nonce R and the (tweaked) external key are not the point at infinity; "
+               "omit_partial_rejected assumes the omitted partial signature is not 0 mod N",
+               "participants are given by their secrets (every key is d*G): Mathlib has no Hasse bound, so arbitrary curve "
+               "points are not known to lie in <G>",
+               "the x-only participant keys are pairwise different (F13a: the code keys its coefficient table by x-only key)",
                "itertools.combinations and sorted behave as documented (their models are validated by this run)"]
 
 
@@ -505,7 +515,30 @@ def run(ctx):
     def add(kind, line, determined=True):
         lines.append((kind, line, determined))
 
-    keys = make_keys(rng, ctx.n(12, 40))     # (d, x, y)
+    def flush():
+        """run model and implementation on what has been generated so far; False once the property has failed
+        (the search for a failing input ends there: the remaining, more expensive stages are skipped)"""
+        if lines:
+            model = batch_parallel(drv, [l for _, l, _ in lines], workers=ctx.workers)
+            impl = pmap(impl_line, [l for _, l, _ in lines], workers=ctx.workers)
+            for (kind, line, det), m, im in zip(lines, model, impl):
+                if rec.compare(kind, {"line": line}, im, m, determined=det, key=line[:300]):
+                    rec.sample(kind, {"request": line[:300], "answer": m[:300]}, limit=1)
+                if im == REJECT or im.endswith(" " + REJECT):
+                    rec.count(kind + ":reject")
+        if preds:
+            results = pmap(eval_pred, preds, workers=ctx.workers)
+            for (kind, case), (ok, got, want) in zip(preds, results):
+                if ok:
+                    rec.ok(kind, repr(case)[:300])
+                    rec.sample(kind, case, limit=1)
+                else:
+                    rec.violation(kind, dict(case, pred=kind), got, want)
+        lines.clear()
+        preds.clear()
+        return not (rec.violations or rec.disagreements)
+
+    keys = make_keys(rng, ctx.n(11, 40))     # (d, x, y)
     rec.count("pool:even", sum(1 for k in keys if k[2] % 2 == 0))
     rec.count("pool:odd", sum(1 for k in keys if k[2] % 2 == 1))
 
@@ -513,11 +546,18 @@ def run(ctx):
         return f"pt {k[1]} {k[2]}"
 
     def pick_set(n, want_mixed=True):
-        for _ in range(50):
+        """n keys with pairwise different x-only keys (the pool holds d and N-d for d = 1, 2: finding F13a)"""
+        best = None
+        for _ in range(200):
             ks = rng.sample(keys, n)
-            if not want_mixed or len({k[2] % 2 for k in ks}) == 2:
+            if len({k[1] for k in ks}) != n:
+                continue
+            best = ks
+            if not want_mixed or n < 2 or len({k[2] % 2 for k in ks}) == 2:
                 return ks
-        return ks
+        if best is None:
+            raise RuntimeError("no key set with pairwise different x-only keys")
+        return best
 
     # ---- sorting and combinations
     for _ in range(ctx.n(40)):
@@ -533,7 +573,7 @@ def run(ctx):
 
     # ---- script constructors
     tls = [(None, None), (5, None), (None, 7), (500000, None), (None, 0x400003), (3, 4), (0, None), (None, 16), (17, None)]
-    for i in range(ctx.n(30)):
+    for i in range(ctx.n(30, 150)):
         n = rng.choice([1, 2, 2, 3, 3, 4, 5])
         ks = pick_set(n, want_mixed=False)
         k = rng.choice([1, 1, 2, 2, 3, n, n, 0, 16, 17])
@@ -551,13 +591,27 @@ def run(ctx):
     if neg:
         add("musig_new:neg", f"musig_new 2 {ptok(neg[0])} {ptok(neg[1])} - -", determined=False)
 
+    # ---- finding F13a: participants with equal x-only keys (replayed on every run)
+    for wit in ({"parts": [(1, 11, 12), (N - 1, 13, 14)], "sig_hash": xb(bytes(range(32))), "root": "x", "tampers": []},
+                {"parts": [(5, 21, 22), (5, 23, 24)], "sig_hash": xb(bytes(range(32))), "root": xb(bytes(32)), "tampers": []}):
+        ok, got, want = eval_pred(("session", wit))
+        reproduces = (not ok) and isinstance(got, str) and got.startswith("get_signature raised")
+        rec.finding("F13a", reproduces, wit)
+        if reproduces:   # the model describes today's code: compare it on the witness as long as the defect is there
+            ptoks = " ".join(f"{d} {k1} {k2}" for d, k1, k2 in wit["parts"])
+            add("session:F13a", f"session 2 {ptoks} {wit['sig_hash']} {wit['root']} - - none")
+
     # ---- permutation invariance
-    for i in range(ctx.n(10)):
+    for i in range(ctx.n(10, 40)):
         n = 2 + i % 4
         ks = pick_set(n)
         perms = list(itertools.permutations(range(n)))
         rng.shuffle(perms)
-        preds.append(("perm", {"ds": [k[0] for k in ks], "perms": [list(p) for p in perms[: (3 if not ctx.thorough else 24)]]}))
+        preds.append(("perm", {"ds": [k[0] for k in ks], "perms": [list(p) for p in perms[: (3 if not ctx.thorough else 12)]]}))
+
+    if not flush():
+        rec.note("stopped after the constructor / permutation stage: failing input found")
+        return
 
     # ---- signing sessions: generated until every branch has been taken
     def new_session(i, tweaked):
@@ -579,10 +633,10 @@ def run(ctx):
         return c
 
     sessions, seen = [], {}
-    target = ctx.n(40, 400)
+    target = ctx.n(32, 400)
     rounds = 0
     while True:
-        batch = [with_tampers(new_session(len(sessions) + i, tweaked=((len(sessions) + i) % 2 == 0))) for i in range(16 if sessions else target)]
+        batch = [with_tampers(new_session(len(sessions) + i, tweaked=((len(sessions) + i) % 2 == 0))) for i in range(16 if len(sessions) >= target else (12 if not sessions else target - 12))]
         results = pmap(eval_pred, [("session", c) for c in batch], workers=ctx.workers)
         for c, (ok, got, want) in zip(batch, results):
             sessions.append(c)
@@ -602,13 +656,18 @@ def run(ctx):
                 rec.violation("session", dict(c, pred="session"), got, want)
         rounds += 1
         need = [b for b in BRANCHES if seen.get(b, 0) < 1] + [q for q in [("qp", a, b) for a in (0, 1) for b in (0, 1)] if seen.get(q, 0) < 1]
-        if not need or rounds > 6 or rec.violations:
-            if need and not rec.violations:
+        if rec.violations:
+            rec.note("stopped during the signing sessions: failing input found")
+            return
+        if len(sessions) < target:
+            continue
+        if not need or rounds > 8:
+            if need:
                 rec.note(f"branches not reached after {len(sessions)} sessions: {need}")
             break
 
     # ---- the same sessions through the model (all stages compared), a third of them with a tampered sum
-    for i, c in enumerate(sessions[: ctx.n(30, 300)]):
+    for i, c in enumerate(sessions[: ctx.n(24, 300)]):
         ptoks = " ".join(f"{d} {k1} {k2}" for d, k1, k2 in c["parts"])
         base = f"session {len(c['parts'])} {ptoks} {c['sig_hash']} {c['root']} - -"
         add("session", base + " none")
@@ -621,6 +680,10 @@ def run(ctx):
     add("session:badkey", f"session 2 0 5 6 {keys[0][0]} 7 8 {c['sig_hash']} x - - none")
     add("session:zero-nonce", f"session 2 {keys[0][0]} 0 0 {keys[1][0]} 0 0 {c['sig_hash']} x - - none", determined=False)
     add("session:single", f"session 1 {keys[0][0]} 5 6 {c['sig_hash']} x - - none")
+
+    if not flush():
+        rec.note("stopped after the signing sessions: failing input found")
+        return
 
     # ---- trees: all (k, n) with 1 <= k <= n <= 5
     kn = [(k, n) for n in range(1, 6) for k in range(1, n + 1)]
@@ -648,6 +711,10 @@ def run(ctx):
         ls = [("L", (0xC0, ("C", [bytes([i]), 0x51]))) for i in range(n)]
         add("combine", f"combine {n} {' '.join(tok_tree(l) for l in ls)}".rstrip())
 
+    if not flush():
+        rec.note("end-to-end spends skipped: failing input found")
+        return
+
     # ---- end-to-end spends (sampled: EC-heavy)
     spend_cases = []
     for (k, n) in rng.sample([x for x in kn if x[1] >= 2], ctx.n(5, 14)):
@@ -664,21 +731,7 @@ def run(ctx):
     spend_cases.append(("spend", {"ds": [x[0] for x in ks], "k": 2, "which": "single", "subset": [0, 2]}))
     preds += spend_cases
 
-    # ---- run both sides
-    model = batch_parallel(drv, [l for _, l, _ in lines], workers=ctx.workers)
-    impl = pmap(impl_line, [l for _, l, _ in lines], workers=ctx.workers)
-    for (kind, line, det), m, im in zip(lines, model, impl):
-        if rec.compare(kind, {"line": line}, im, m, determined=det, key=line[:300]):
-            rec.sample(kind, {"request": line[:300], "answer": m[:300]}, limit=1)
-        if im == REJECT or im.endswith(" " + REJECT):
-            rec.count(kind + ":reject")
-    results = pmap(eval_pred, preds, workers=ctx.workers)
-    for (kind, case), (ok, got, want) in zip(preds, results):
-        if ok:
-            rec.ok(kind, repr(case)[:300])
-            rec.sample(kind, case, limit=1)
-        else:
-            rec.violation(kind, dict(case, pred=kind), got, want)
+    flush()
 
 
 def replay(ctx, v):
